@@ -23,7 +23,7 @@ RULE = ('import form of module A x import form of module B (incl. colliding alia
         're-parse on a reset gin; negative menu (foreign imports, reserved name, late/aliased enabling, unknown feature, '
         'missing attribute). non-trivial = two modules or an alias involved.')
 ASSUMPTIONS = ['generated package c19pkg on sys.path (created per run, removed at exit)', 'in-memory reader for included files']
-WITNESSES = ['nested_class_method_configured', 'bound_name_equal_to_package', 'wrapper_and_wrapped_distinct', 'exact_object_configured', 'spellings_alias_same_configurable', 'method_configured', 'nested_class_configured',
+WITNESSES = ['library_registered_nested_class', 'nested_class_method_configured', 'bound_name_equal_to_package', 'wrapper_and_wrapped_distinct', 'exact_object_configured', 'spellings_alias_same_configurable', 'method_configured', 'nested_class_configured',
              'reference_survives_method_registration', 'foreign_import_rejected', 'reserved_gin_rejected',
              'late_enabling_rejected', 'aliased_enabling_rejected', 'unknown_feature_rejected', 'config_str_reparses',
              'colliding_names_realiased', 'missing_attribute_rejected']
@@ -123,6 +123,24 @@ class Trainer:
       def factor(self, gamma='dg'):
         return ('factor', gamma)
 ''')
+  # a library module that registers nested classes / methods itself (by decorator) and is then used by a
+  # dynamic-registration file; a top-level object shares the nested class's name
+  with open(os.path.join(d, 'c19lib.py'), 'w') as fh:
+    fh.write('''import gin
+
+class Optimizer:
+  @gin.configurable
+  class Schedule:
+    def __init__(self, warmup=None):
+      self.warmup = warmup
+
+class Schedule:     # a different, unregistered object that merely shares the nested class's name
+  def __init__(self, warmup=None):
+    self.warmup = ('top-level', warmup)
+
+def consume(source=None):
+  return source
+''')
   sys.path.insert(0, d)
   import atexit
   atexit.register(lambda: shutil.rmtree(d, ignore_errors=True))
@@ -132,6 +150,7 @@ class Trainer:
   import c19pkg.third.mod  # pylint: disable=import-outside-toplevel,unused-import
   import c19pkg.fourth.mod  # pylint: disable=import-outside-toplevel,unused-import
   import c19tool, c19tool.c19tool, c19tool.helpers  # pylint: disable=import-outside-toplevel,unused-import,multiple-imports
+  import c19lib  # pylint: disable=import-outside-toplevel,unused-import
   import c19pkg.alpha.tools, c19pkg.beta.tools, c19pkg.alpha.deep.tools, c19pkg.beta.deep.tools  # pylint: disable=import-outside-toplevel,unused-import,multiple-imports
 
 
@@ -643,7 +662,8 @@ def run_nested(case, res):
   """Methods of nested classes (any depth), configured before / after a reference to the class exists."""
   _, fi, order = case
   imp, pre = NESTED_FORMS[fi]
-  lines = {'ref': '%s.consume.source = @%s.Trainer.Schedule()' % (pre, pre),
+  lines = {'ref': "%s.consume.source = [@%s.Trainer.Schedule(), @sc/%s.Trainer.Schedule()]\nsc/%s.Trainer.Schedule.steps = 'scoped'"
+                  % (pre, pre, pre, pre),
            'rate': "%s.Trainer.Schedule.rate.warmup = 'W'" % pre,
            'factor': "%s.Trainer.Schedule.Decay.factor.gamma = 'G'" % pre,
            'fit': "%s.Trainer.fit.epochs = 'E'" % pre,
@@ -655,7 +675,7 @@ def run_nested(case, res):
   import c19tool  # pylint: disable=import-outside-toplevel
   m = c19tool.c19tool
   want = {'rate': ('rate', 'W'), 'factor': ('factor', 'G'), 'fit': ('fit', 'E'), 'steps': 7, 'ref.rate': ('rate', 'W'),
-          'ref.steps': 7}
+          'ref.steps': 7, 'scoped_ref.rate': ('rate', 'W'), 'scoped_ref.steps': 'scoped'}
 
   def observe():
     obs = {}
@@ -663,8 +683,9 @@ def run_nested(case, res):
     obs['steps'] = gin.get_configurable(m.Trainer.Schedule)().steps
     obs['factor'] = gin.get_configurable(m.Trainer.Schedule.Decay)().factor()
     obs['fit'] = gin.get_configurable(m.Trainer)().fit()
-    inst = gin.get_configurable(m.consume)()
+    inst, scoped_inst = gin.get_configurable(m.consume)()
     obs['ref.rate'], obs['ref.steps'] = inst.rate(), inst.steps
+    obs['scoped_ref.rate'], obs['scoped_ref.steps'] = scoped_inst.rate(), scoped_inst.steps
     return obs
   try:
     gin.parse_config(text)
@@ -684,7 +705,53 @@ def run_nested(case, res):
     res.w('nested_class_method_configured')
 
 
+LIBREG = {
+    'nested_binding': "import c19lib\nc19lib.Optimizer.Schedule.warmup = 10\n",
+    'nested_reference': "import c19lib as L\nL.Optimizer.Schedule.warmup = 10\nL.consume.source = @L.Optimizer.Schedule()\n",
+}
+
+
+def run_libreg(case, res):
+  name = case[1]
+  text = LIBREG[name]
+  harness.hard_reset()
+  MEM.clear()
+  res.case(tuple(case), True)
+  import c19lib  # pylint: disable=import-outside-toplevel
+
+  def observe():
+    obs = {'nested': gin.get_configurable(c19lib.Optimizer.Schedule)().warmup}
+    try:
+      obs['top'] = gin.get_configurable(c19lib.Schedule)().warmup
+    except ValueError:
+      obs['top'] = 'unregistered'
+    if 'consume' in text:
+      obs['ref'] = gin.get_configurable(c19lib.consume)().warmup
+    return obs
+  want = {'nested': 10, 'top': 'unregistered'}
+  if 'consume' in text:
+    want['ref'] = 10
+  try:
+    gin.parse_config(HEAD + text)
+    got = observe()
+    emitted = gin.config_str()
+    harness.hard_reset()
+    gin.parse_config(emitted)
+    again = observe()
+  except Exception as e:  # pylint: disable=broad-except
+    res.violation('config_str_roundtrip_objects', '%r: config\n%s\nraised %r' % (case, text, e), list(case))
+    return
+  res.outcome('libreg')
+  if got != want or again != want:
+    res.violation('config_str_roundtrip_objects', '%r: config\n%s\nobjects see %r, after re-parsing the config string %r, '
+                  'expected %r\n%s' % (case, text, got, again, want, emitted), list(case))
+  else:
+    res.w('library_registered_nested_class')
+
+
 def gen(tier):
+  for n in LIBREG:
+    yield ['libreg', n]
   for fi in range(len(NESTED_FORMS)):
     for order in (['ref', 'rate', 'factor', 'fit', 'steps'], ['rate', 'factor', 'fit', 'steps', 'ref'],
                   ['steps', 'ref', 'factor', 'rate', 'fit']):
@@ -717,7 +784,7 @@ def run_shard(i, tier):
     if n % NSH != i:
       continue
     try:
-      {'neg': run_negative, 'multi': run_multi, 'plain': run_plain, 'special': run_special, 'nested': run_nested}.get(c[0], run_case)(c, res)
+      {'neg': run_negative, 'multi': run_multi, 'plain': run_plain, 'special': run_special, 'nested': run_nested, 'libreg': run_libreg}.get(c[0], run_case)(c, res)
     except Exception:  # pylint: disable=broad-except
       import traceback
       res.extra['harness_error'] = traceback.format_exc() + '\ncase=%r' % (c,)
@@ -730,6 +797,6 @@ def run_shard(i, tier):
 
 def replay(c):
   res = core.Result()
-  {'neg': run_negative, 'multi': run_multi, 'plain': run_plain, 'special': run_special, 'nested': run_nested}.get(c[0], run_case)(c, res)
+  {'neg': run_negative, 'multi': run_multi, 'plain': run_plain, 'special': run_special, 'nested': run_nested, 'libreg': run_libreg}.get(c[0], run_case)(c, res)
   harness.hard_reset()
   return res
